@@ -14,6 +14,31 @@ def linearizable(run, hist, label, mode="lin"):
         return False
     raise vlib.Infra("linearizability search did not complete:\n" + st["out"][-1500:])
 
+def inductive_step(run):
+    """Optional stronger step (Apalache, time-boxed): MutualExclusion of the merge queue is part of an inductive invariant
+    (base case from Init; step from ANY state satisfying the invariant with channel ids below 20). A failure to run is
+    recorded as a note, a counterexample is a model error."""
+    import subprocess, shutil as sh
+    d = os.path.join(run.tmp, "apalache")
+    os.makedirs(d, exist_ok=True)
+    sh.copy(os.path.join(vlib.SPEC, "apalache", "MergeQueueApa.tla"), d)
+    res = []
+    for name, args in (("base", ["--init=Init", "--length=0"]), ("step", ["--init=IndInit", "--length=1"])):
+        try:
+            p = subprocess.run(["apalache-mc", "check", "--cinit=CInit", "--inv=IndInv"] + args + ["MergeQueueApa.tla"], cwd=d,
+                               capture_output=True, text=True, timeout=600)
+        except Exception as e:
+            run.notes.append("apalache %s case not run: %s" % (name, e))
+            return
+        if "The outcome is: NoError" in p.stdout:
+            res.append(name)
+        elif "The outcome is: Error" in p.stdout:
+            raise vlib.Infra("Apalache refutes the inductive invariant of MergeQueue (%s case): model error\n%s" % (name, p.stdout[-1500:]))
+        else:
+            run.notes.append("apalache %s case inconclusive: %s" % (name, (p.stdout + p.stderr)[-300:]))
+            return
+    run.notes.append("apalache: IndInv of MergeQueueApa.tla (contains MutualExclusion) holds initially and is preserved by every step (%s)" % "+".join(res))
+
 def check(run, replay):
     thorough = run.tier == "thorough"
     if replay:
@@ -34,6 +59,7 @@ def check(run, replay):
         raise vlib.Infra("the merge-queue model no longer refutes the missing re-check: model drift")
     run.tlc("MergeQueue.tla", "mq.cfg", workers=8, timeout=1500, cfg_text=MQ.format(procs="{1,2,3,4}" if thorough else "{1,2,3}", rc="TRUE", props="PROPERTIES EventuallyFinished\n"),
             label="MC_MergeQueue(as coded)")
+    inductive_step(run)
     binary = run.build("concrun", race=True)
     runs = 40 if thorough else 8
     viol, calls, accepted = [], 0, 0
